@@ -244,7 +244,7 @@ var model = porcupine.Model{
 		ok, n := step(st.(mstate), in.(call), out.(string))
 		return ok, n
 	},
-	Equal: func(a, b interface{}) bool { return a.(mstate).key() == b.(mstate).key() },
+	Equal:             func(a, b interface{}) bool { return a.(mstate).key() == b.(mstate).key() },
 	DescribeOperation: func(in, out interface{}) string { return fmt.Sprintf("%v -> %v", in, out) },
 }
 
@@ -396,6 +396,7 @@ func scenario(sc scen) sched.Scenario {
 		for _, c := range sc.init {
 			record(0, c)
 		}
+		vsched.Focus()
 		for i, cl := range sc.clients {
 			i, cl := i, cl
 			vsched.Spawn(func() {
